@@ -7,20 +7,42 @@
  *               replays everywhere)
  *   size:1      size class: small (default) / medium (<= 4200) / large
  *               (4201 .. 70000, thorough 100000; fixed small share)
- *   forced:1    bit0..4 force DELTA/FOR/PFOR/DICT/TAGGED after the automatic
- *               round trip, bit5 forces BITMAP when the array is strictly
- *               increasing below 65536 (the harness checks that itself)
+ *   forced:1    without a history: bit0..4 force DELTA/FOR/PFOR/DICT/TAGGED
+ *               after the automatic round trip, bit5 forces BITMAP when the
+ *               array is strictly increasing below 65536 (the harness checks
+ *               that itself); with a history: the request of the first step
  *   ...         generator arguments (see the gen_* functions); the "steer"
  *               generators take the thresholds of the selection tree as
  *               arguments (target distinct count relative to 0.15 n / 0.9 n,
  *               average delta relative to 1000 and min/10, outlier count
  *               relative to 0.05 n, range relative to 100 n and 2^64/95, maximum
  *               relative to 65536, length relative to 10000, sampled distinct
- *               count for n > 10000)
+ *               count for n > 10000); generator 11 ("pair") appends op:1 cst:u64
+ *               for a second array of the same length
+ *   meta:1      how the caller holds the varintAdaptiveMeta object (documented
+ *               as optional OUTPUT): bits0..2 fresh zeroed / NULL / fresh
+ *               poisoned (+ byte:1) / fresh with the count in every 32-bit
+ *               word / ... 64-bit word / ONE object reused by every call of
+ *               the case (first zeroed, poisoned (+ byte:1), count-stamped);
+ *               bit3: the decoder is handed a meta object in the same way
+ *   hist:1      low nibble: number of further steps (0 for half of the
+ *               values, else 1..5); bit4 deferred: every encode of the case
+ *               first, then every decode
+ *   step*       step:1 (bits0..2 how the array follows from the previous one:
+ *               same / +c / -c / *m+c / reversed^c / unrelated values of the
+ *               same length / a new array / a nearby length; bits3..5 request:
+ *               auto, DELTA, FOR, PFOR, DICT, TAGGED, BITMAP-if-legal-else-FOR,
+ *               same as before) + arguments
+ *   A case without history is the automatic encode followed by the forced
+ *   encodings of the mask on the same array; the former "pair mode" is the
+ *   deferred two-step history with one request.  All calls of a case go
+ *   through the same meta handling.
  *
- * oracle: varintAdaptiveDecode(buf, out, count) returns count and the original
- * sequence in order; buf[0] == meta.encodingType ==
- * varintAdaptiveGetEncodingType(buf) (== the forced type when forced).
+ * oracle, at every step: varintAdaptiveDecode(buf, out, count) returns count
+ * and the original sequence in order; buf[0] == meta.encodingType (read right
+ * after the call, when a meta was passed) == varintAdaptiveGetEncodingType(buf)
+ * (== the forced type when forced); a decoder that is handed a meta reports
+ * the first byte as well.
  * Destination: varintAdaptiveMaxSize(count) + 16*count + 1024 bytes with a
  * guard behind it (the bound itself belongs to C03; outputs larger than
  * varintAdaptiveMaxSize are only counted, class `*.enc>MaxSize`). */
@@ -30,7 +52,7 @@
 #include "varintAdaptive.h"
 
 const char *vf_prop_id = "C06";
-const size_t vf_case_maxlen = 160;
+const size_t vf_case_maxlen = 240;
 
 #define KNOWN_DICT "C06-dict-over-1MiB"
 #define MIB ((uint64_t)1024 * 1024)
@@ -44,7 +66,6 @@ static const char *const enc_name[7] = {"DELTA", "FOR",    "PFOR", "DICT",
 
 typedef struct c06 {
     vf_report *rep;
-    int extra_evals; /* sub-cases after the first */
 } c06;
 
 /* ----------------------------------------------------------- small helpers */
@@ -321,6 +342,155 @@ static void branch_classes(const st *s) {
     }
 }
 
+/* ----------------------------------------------------------- meta handling
+ * The varintAdaptiveMeta parameter of the encoders and of the decoder is
+ * documented as "optional output metadata (can be NULL)".  Every way a caller
+ * may legally hold that object is therefore a dimension of every case:
+ *   zero     a fresh zeroed object per call
+ *   null     NULL
+ *   poison   a fresh object per call filled with a generated byte (what an
+ *            uninitialised stack object looks like, made deterministic)
+ *   stamp32  a fresh object whose every 32-bit word holds the element count
+ *   stamp64  ... every 64-bit word ...
+ *   reused   ONE object handed to every call of the case (and to the decoder
+ *            when the case says so); before the first call it is zeroed,
+ *            poisoned or stamped
+ * The harness fills every object completely before the library sees it and
+ * only reads `encodingType` back after a successful call, so it never reads
+ * uninitialised memory itself. */
+enum { MM_ZERO = 0, MM_NULL, MM_POISON, MM_STAMP32, MM_STAMP64, MM_REUSED };
+static const char *const mm_name[6] = {"zero",    "null",    "poison",
+                                       "stamp32", "stamp64", "reused"};
+
+typedef struct mctx {
+    unsigned mode;  /* MM_* */
+    unsigned init;  /* MM_REUSED: state before the first call (MM_ZERO,
+                       MM_POISON, MM_STAMP32, MM_STAMP64) */
+    uint8_t pbyte;  /* poison byte */
+    int dec;        /* the decoder is handed a meta object too (same mode) */
+    int live;       /* `shared` has been initialised */
+    varintAdaptiveMeta shared;
+    /* the harness's own record of which encode last wrote the union of
+     * `shared` (class counters only, never an oracle) */
+    int utype;
+    size_t un;
+    uint64_t umin;
+    unsigned uwidth;
+} mctx;
+
+static void meta_fill(varintAdaptiveMeta *m, unsigned how, uint8_t pb,
+                      size_t n) {
+    unsigned char *p = (unsigned char *)m;
+    switch (how) {
+    case MM_POISON:
+        memset(m, pb, sizeof(*m));
+        break;
+    case MM_STAMP32: {
+        uint32_t w = (uint32_t)n;
+        memset(m, 0, sizeof(*m));
+        for (size_t i = 0; i + sizeof(w) <= sizeof(*m); i += sizeof(w)) {
+            memcpy(p + i, &w, sizeof(w));
+        }
+        break;
+    }
+    case MM_STAMP64: {
+        uint64_t w = (uint64_t)n;
+        memset(m, 0, sizeof(*m));
+        for (size_t i = 0; i + sizeof(w) <= sizeof(*m); i += sizeof(w)) {
+            memcpy(p + i, &w, sizeof(w));
+        }
+        break;
+    }
+    default:
+        memset(m, 0, sizeof(*m));
+        break;
+    }
+}
+
+/* the object for one call: NULL, the shared object, or `fresh` (filled) */
+static varintAdaptiveMeta *meta_for(mctx *m, varintAdaptiveMeta *fresh,
+                                    size_t n) {
+    switch (m->mode) {
+    case MM_NULL:
+        return NULL;
+    case MM_REUSED:
+        if (!m->live) {
+            meta_fill(&m->shared, m->init, m->pbyte, n);
+            m->live = 1;
+        }
+        return &m->shared;
+    default:
+        meta_fill(fresh, m->mode, m->pbyte, n);
+        return fresh;
+    }
+}
+
+static void take_meta(vf_rd *r, mctx *m) {
+    memset(m, 0, sizeof(*m));
+    m->utype = -1;
+    uint8_t mb = vf_u8(r);
+    switch (mb & 7) {
+    case 0:
+        m->mode = MM_ZERO;
+        break;
+    case 1:
+        m->mode = MM_NULL;
+        break;
+    case 2:
+        m->mode = MM_POISON;
+        break;
+    case 3:
+        m->mode = MM_STAMP32;
+        break;
+    case 4:
+        m->mode = MM_STAMP64;
+        break;
+    case 5:
+        m->mode = MM_REUSED;
+        m->init = MM_ZERO;
+        break;
+    case 6:
+        m->mode = MM_REUSED;
+        m->init = MM_POISON;
+        break;
+    default:
+        m->mode = MM_REUSED;
+        m->init = (mb & 0x10) ? MM_STAMP32 : MM_STAMP64;
+        break;
+    }
+    m->dec = (mb >> 3) & 1;
+    m->pbyte = 0xA5;
+    if (m->mode == MM_POISON || (m->mode == MM_REUSED && m->init == MM_POISON)) {
+        static const uint8_t fav[4] = {0xA5, 0xFF, 0x01, 0x80};
+        uint8_t pb = vf_u8(r);
+        m->pbyte = pb < 4 ? fav[pb] : pb;
+    }
+    char cls[48];
+    snprintf(cls, sizeof(cls), "meta.%s", mm_name[m->mode]);
+    vf_class(cls);
+    if (m->mode == MM_REUSED) {
+        snprintf(cls, sizeof(cls), "meta.reused.init-%s", mm_name[m->init]);
+        vf_class(cls);
+    }
+    vf_class(m->dec && m->mode != MM_NULL ? "meta.decode.passed"
+                                          : "meta.decode.null");
+}
+
+static void meta_describe(vf_report *rep, const mctx *m) {
+    if (m->mode == MM_POISON) {
+        vf_desc(rep, " meta=poison(0x%02x)", m->pbyte);
+    } else if (m->mode == MM_REUSED && m->init == MM_POISON) {
+        vf_desc(rep, " meta=reused(first poison 0x%02x)", m->pbyte);
+    } else if (m->mode == MM_REUSED) {
+        vf_desc(rep, " meta=reused(first %s)", mm_name[m->init]);
+    } else {
+        vf_desc(rep, " meta=%s", mm_name[m->mode]);
+    }
+    if (m->dec && m->mode != MM_NULL) {
+        vf_desc(rep, "+decoder");
+    }
+}
+
 /* ---------------------------------------------------------- the round trip */
 typedef struct job {
     const uint64_t *v;
@@ -328,32 +498,60 @@ typedef struct job {
     const st *s;
     int forced; /* -1 = automatic selection */
     const char *prefix;
+    unsigned stepno; /* position in the history of the case */
+    uint64_t ctxhash; /* hash of the preceding steps (distinctness only) */
     uint8_t *buf;
     size_t cap, enc;
     unsigned type;
-    varintAdaptiveMeta meta;
+    varintAdaptiveMeta meta; /* the fresh object of this call */
+    varintAdaptiveMeta *mp;  /* what the encoder was handed */
+    unsigned mt;             /* mp->encodingType right after the call */
+    unsigned t0;             /* first output byte right after the call */
+    /* what the harness knew about the shared object before this call */
+    int pre_live, pre_utype;
+    size_t pre_un;
+    uint64_t pre_umin;
+    unsigned pre_uwidth;
 } job;
 
-static void job_encode(c06 *c, job *j) {
+static void job_encode(mctx *m, job *j) {
     /* worst legitimate output: PFOR with every value an exception is
      * 22 n + 28 bytes, DICT with all values distinct 13 n + 18 */
     j->cap = varintAdaptiveMaxSize(j->n) + j->n * 16 + 1024;
     j->buf = (uint8_t *)vf_exact_alloc(j->cap);
-    memset(&j->meta, 0xEE, sizeof(j->meta));
     j->buf[0] = 0xEE;
     j->type = 0xEE;
+    j->pre_live = m->live;
+    j->pre_utype = m->utype;
+    j->pre_un = m->un;
+    j->pre_umin = m->umin;
+    j->pre_uwidth = m->uwidth;
+    j->mp = meta_for(m, &j->meta, j->n);
     if (j->forced < 0) {
-        j->enc = varintAdaptiveEncode(j->buf, j->v, j->n, &j->meta);
+        j->enc = varintAdaptiveEncode(j->buf, j->v, j->n, j->mp);
     } else {
         j->enc = varintAdaptiveEncodeWith(
-            j->buf, j->v, j->n, (varintAdaptiveEncodingType)j->forced,
-            &j->meta);
+            j->buf, j->v, j->n, (varintAdaptiveEncodingType)j->forced, j->mp);
     }
-    (void)c;
+    /* the reported choice has to be read now: the next call of a history may
+     * go through the same object */
+    j->mt = j->mp ? (unsigned)j->mp->encodingType : 0xEE;
+    j->t0 = j->enc ? j->buf[0] : 0xEE;
+    if (j->mp == &m->shared && j->enc != 0) {
+        if (j->buf[0] == VARINT_ADAPTIVE_FOR) {
+            m->utype = VARINT_ADAPTIVE_FOR;
+            m->un = j->n;
+            m->umin = j->s->min;
+            m->uwidth = bytes_for(j->s->range);
+        } else if (j->buf[0] == VARINT_ADAPTIVE_PFOR) {
+            m->utype = VARINT_ADAPTIVE_PFOR;
+            m->un = j->n;
+        }
+    }
 }
 
 /* header, decode, compare; frees the buffer */
-static void job_verify(c06 *c, job *j, int first_of_case) {
+static void job_verify(c06 *c, mctx *m, job *j, int first_of_case) {
     vf_report *rep = c->rep;
     char site[64];
     size_t n = j->n;
@@ -365,28 +563,31 @@ static void job_verify(c06 *c, job *j, int first_of_case) {
     size_t dmg = vf_exact_check(j->buf);
     if (dmg) {
         vf_fail(rep, site, "canary",
-                "n=%zu: encoder wrote past varintAdaptiveMaxSize(n)+16n+1024 = "
-                "%zu bytes (guard byte %zu damaged)",
-                n, j->cap, dmg);
+                "step %u n=%zu: encoder wrote past "
+                "varintAdaptiveMaxSize(n)+16n+1024 = %zu bytes (guard byte "
+                "%zu damaged)",
+                j->stepno, n, j->cap, dmg);
         goto done;
     }
     if (j->enc == 0 || j->enc > j->cap) {
         vf_fail(rep, site, "length",
-                "n=%zu %s: encoder returned %zu (capacity %zu)", n,
-                j->forced < 0 ? "auto" : enc_name[j->forced], j->enc, j->cap);
+                "step %u n=%zu %s: encoder returned %zu (capacity %zu)",
+                j->stepno, n, j->forced < 0 ? "auto" : enc_name[j->forced],
+                j->enc, j->cap);
         goto done;
     }
     j->type = j->buf[0];
     snprintf(site, sizeof(site), "%s.type", j->prefix);
     {
-        unsigned mt = (unsigned)j->meta.encodingType;
+        unsigned mt = j->mp ? j->mt : j->type;
         unsigned gt = (unsigned)varintAdaptiveGetEncodingType(j->buf);
         if (j->type > VARINT_ADAPTIVE_TAGGED || mt != j->type ||
             gt != j->type || (j->forced >= 0 && j->type != (unsigned)j->forced)) {
             vf_fail(rep, site, "header",
-                    "n=%zu: first byte %u, meta.encodingType %u, "
+                    "step %u n=%zu: first byte %u, meta.encodingType %u%s, "
                     "GetEncodingType %u, requested %d (-1 = automatic)",
-                    n, j->type, mt, gt, j->forced);
+                    j->stepno, n, j->type, mt,
+                    j->mp ? "" : " (no meta passed)", gt, j->forced);
             goto done;
         }
     }
@@ -421,19 +622,28 @@ static void job_verify(c06 *c, job *j, int first_of_case) {
     }
     out = (uint64_t *)vf_exact_alloc(n * sizeof(uint64_t));
     memset(out, 0x5A, n * sizeof(uint64_t));
-    size_t got = varintAdaptiveDecode(j->buf, out, n, NULL);
+    varintAdaptiveMeta dmeta, *dp = NULL;
+    if (m->dec && m->mode != MM_NULL) {
+        dp = meta_for(m, &dmeta, n);
+    }
+    size_t got = varintAdaptiveDecode(j->buf, out, n, dp);
+    if (dp == &m->shared && j->type == VARINT_ADAPTIVE_PFOR) {
+        m->utype = VARINT_ADAPTIVE_PFOR; /* the decoder stores what it parsed */
+        m->un = n;
+    }
     snprintf(site, sizeof(site), "%s.%s.decode", j->prefix, name);
     dmg = vf_exact_check(out);
     if (dmg) {
         vf_fail(rep, site, "canary",
-                "n=%zu: decoder wrote past the %zu-value output array", n, n);
+                "step %u n=%zu: decoder wrote past the %zu-value output array",
+                j->stepno, n, n);
         goto done;
     }
     if (got != n) {
         vf_fail(rep, site, "count",
-                "n=%zu encoded as %s in %zu bytes: decoder returned %zu values "
-                "(first values %llu,%llu)",
-                n, name, j->enc, got, (unsigned long long)j->v[0],
+                "step %u n=%zu encoded as %s in %zu bytes: decoder returned "
+                "%zu values (first values %llu,%llu)",
+                j->stepno, n, name, j->enc, got, (unsigned long long)j->v[0],
                 (unsigned long long)(n > 1 ? j->v[1] : 0));
         goto done;
     }
@@ -443,18 +653,28 @@ static void job_verify(c06 *c, job *j, int first_of_case) {
             i++;
         }
         vf_fail(rep, site, "value",
-                "n=%zu encoded as %s: value[%zu] = %llu decoded as %llu "
+                "step %u n=%zu encoded as %s: value[%zu] = %llu decoded as %llu "
                 "(value[%zu] = %llu decoded as %llu)",
-                n, name, i, (unsigned long long)j->v[i],
+                j->stepno, n, name, i, (unsigned long long)j->v[i],
                 (unsigned long long)out[i], i ? i - 1 : (n > 1 ? 1 : 0),
                 (unsigned long long)j->v[i ? i - 1 : (n > 1 ? 1 : 0)],
                 (unsigned long long)out[i ? i - 1 : (n > 1 ? 1 : 0)]);
         goto done;
     }
+    if (dp && (unsigned)dp->encodingType != j->type) {
+        snprintf(site, sizeof(site), "%s.decode.type", j->prefix);
+        vf_fail(rep, site, "header",
+                "step %u n=%zu: the decoder reports encodingType %u for a "
+                "stream whose first byte is %u",
+                j->stepno, n, (unsigned)dp->encodingType, j->type);
+        goto done;
+    }
     if ((n >= 2 && j->type != VARINT_ADAPTIVE_TAGGED) || n > 10000) {
         uint64_t h = vf_hash_bytes(0xcbf29ce484222325ULL, j->v,
                                    n * sizeof(uint64_t));
-        vf_nontrivial(vf_mix(vf_mix(h, j->type), (uint64_t)(j->forced + 1)));
+        h = vf_mix(vf_mix(h, j->type), (uint64_t)(j->forced + 1));
+        vf_nontrivial(vf_mix(vf_mix(h, m->mode * 2u + (dp != NULL)),
+                             j->ctxhash));
     }
 done:
     vf_exact_free(out);
@@ -470,24 +690,183 @@ done:
 #define F_BITMAP 32u
 #define F_NOAUTO 64u
 
-/* automatic round trip, then every forced encoding selected by `fm` */
-static void roundtrip(c06 *c, const uint64_t *v, size_t n, unsigned fm) {
+/* ------------------------------------------------------------------ steps
+ * A case is a list of steps, each one encode request on one array:
+ *   - without a history: the automatic encode of the array followed by every
+ *     forced encoding of the mask, in enumeration order;
+ *   - with a history: 2..6 single requests on (mostly equal-length) arrays.
+ * All steps of a case share one meta context.  `defer` = every encode first,
+ * then every decode (the former "pair mode" is the two-step deferred history
+ * with the same request). */
+#define MAX_STEPS 8
+
+typedef struct step {
+    const uint64_t *v;
+    size_t n;
+    const st *s;
+    int req; /* -1 = automatic */
+} step;
+
+static void hist_before(const mctx *m, const job *j, const step *sp,
+                        unsigned i) {
+    const step *a = &sp[i - 1], *b = &sp[i];
+    if (b->n == a->n) {
+        vf_class("hist.samelen");
+        if (b->v == a->v) {
+            vf_class("hist.samelen.samearray");
+        } else if (b->s->min != a->s->min ||
+                   bytes_for(b->s->range) != bytes_for(a->s->range)) {
+            vf_class("hist.samelen.newframe");
+            if (b->s->min < a->s->min) {
+                vf_class("hist.samelen.lowermin");
+            }
+            if (bytes_for(b->s->range) > bytes_for(a->s->range)) {
+                vf_class("hist.samelen.wider");
+            }
+        }
+    } else {
+        vf_class("hist.difflen");
+        vf_class(b->n < a->n ? "hist.shorter" : "hist.longer");
+    }
+    if (a->s->strict16 && !b->s->strict16) {
+        vf_class("hist.nonset-after-set");
+    }
+    vf_class(b->req < 0 ? (a->req < 0 ? "hist.auto-after-auto"
+                                      : "hist.auto-after-forced")
+                        : (a->req < 0 ? "hist.forced-after-auto"
+                                      : "hist.forced-after-forced"));
+    /* the shared object still holds the FOR frame of an earlier array of the
+     * same length and this array does not fit that frame */
+    if (m->mode == MM_REUSED && j->pre_live &&
+        j->pre_utype == VARINT_ADAPTIVE_FOR && j->pre_un == b->n) {
+        vf_class("meta.reused.stale-for-frame.samelen");
+        if (b->s->min != j->pre_umin ||
+            bytes_for(b->s->range) != j->pre_uwidth) {
+            vf_class(b->req == VARINT_ADAPTIVE_FOR
+                         ? "meta.reused.stale-for-frame.newframe.forced-for"
+                         : "meta.reused.stale-for-frame.newframe.other");
+        }
+    }
+    if (m->mode == MM_REUSED && j->pre_live &&
+        j->pre_utype == VARINT_ADAPTIVE_PFOR) {
+        vf_class(j->pre_un == b->n ? "meta.reused.stale-pfor.samelen"
+                                   : "meta.reused.stale-pfor.difflen");
+    }
+}
+
+static void hist_after(const step *sp, unsigned i, unsigned tprev,
+                       unsigned tcur) {
+    const step *a = &sp[i - 1], *b = &sp[i];
+    if (tprev > 6 || tcur > 6) {
+        return;
+    }
+    vf_class(tprev == tcur ? "hist.sametype" : "hist.typechange");
+    if (tprev == VARINT_ADAPTIVE_FOR && tcur == VARINT_ADAPTIVE_FOR) {
+        vf_class("hist.for-after-for");
+        if (a->n == b->n && a->v != b->v &&
+            (b->s->min != a->s->min ||
+             bytes_for(b->s->range) != bytes_for(a->s->range))) {
+            vf_class("hist.for-after-for.samelen.newframe");
+        }
+    }
+    if (tprev == VARINT_ADAPTIVE_PFOR && tcur == VARINT_ADAPTIVE_PFOR) {
+        vf_class("hist.pfor-after-pfor");
+        if (a->n == b->n && a->v != b->v) {
+            vf_class("hist.pfor-after-pfor.samelen");
+        }
+    }
+    if (tprev == VARINT_ADAPTIVE_BITMAP && tcur != VARINT_ADAPTIVE_BITMAP) {
+        vf_class("hist.other-after-bitmap");
+    }
+    if (tprev == VARINT_ADAPTIVE_DICT && tcur == VARINT_ADAPTIVE_DICT &&
+        a->v != b->v) {
+        vf_class("hist.dict-after-dict");
+    }
+}
+
+/* class counters and description of step i, after its encode */
+static void step_account(c06 *c, const mctx *m, const job *jobs,
+                         const step *sp, unsigned i, uint64_t *ctx) {
+    const job *j = &jobs[i];
+    unsigned tcur = j->t0;
+    if (i > 0) {
+        hist_before(m, j, sp, i);
+        hist_after(sp, i, jobs[i - 1].t0, tcur);
+    }
+    vf_desc(c->rep, "%s%s", i ? "," : " types=",
+            tcur <= 6 ? enc_name[tcur] : "?");
+    *ctx = vf_mix(vf_mix(*ctx, vf_hash_bytes(tcur + 1, j->v,
+                                             j->n * sizeof(uint64_t))),
+                  (uint64_t)(j->forced + 1));
+}
+
+static void run_steps(c06 *c, mctx *m, const step *sp, unsigned ns, int defer,
+                      int history) {
+    job jobs[MAX_STEPS];
+    unsigned encoded = 0, verified = 0;
+    uint64_t ctx = 0;
+    for (unsigned i = 0; i < ns; i++) {
+        job *j = &jobs[i];
+        memset(j, 0, sizeof(*j));
+        j->v = sp[i].v;
+        j->n = sp[i].n;
+        j->s = sp[i].s;
+        j->forced = sp[i].req;
+        j->stepno = i;
+        j->prefix = history && i > 0 ? (j->forced < 0 ? "hist.auto"
+                                                      : "hist.forced")
+                                     : (j->forced < 0 ? "auto" : "forced");
+    }
+    if (defer) {
+        /* every encode first, with nothing of the harness in between but the
+         * allocation of the next destination (a callee that keeps state in a
+         * stale stack slot sees it undisturbed), then the bookkeeping, then
+         * every decode */
+        for (unsigned i = 0; i < ns; i++) {
+            job_encode(m, &jobs[i]);
+        }
+        encoded = ns;
+        for (unsigned i = 0; i < ns; i++) {
+            jobs[i].ctxhash = ctx;
+            step_account(c, m, jobs, sp, i, &ctx);
+        }
+        for (unsigned i = 0; i < ns && !c->rep->violated; i++) {
+            job_verify(c, m, &jobs[i], i == 0);
+            verified = i + 1;
+        }
+    } else {
+        for (unsigned i = 0; i < ns && !c->rep->violated; i++) {
+            job *j = &jobs[i];
+            j->ctxhash = ctx;
+            job_encode(m, j);
+            encoded = i + 1;
+            if (history) {
+                step_account(c, m, jobs, sp, i, &ctx);
+            }
+            job_verify(c, m, j, i == 0);
+            verified = i + 1;
+            if (!history && j->forced < 0) {
+                vf_desc(c->rep, " auto=%s",
+                        j->type <= 6 ? enc_name[j->type] : "?");
+            }
+        }
+    }
+    for (unsigned i = verified; i < encoded; i++) {
+        vf_exact_free(jobs[i].buf);
+    }
+}
+
+/* automatic round trip, then every forced encoding selected by `fm`, all
+ * through one meta context */
+static void roundtrip(c06 *c, mctx *m, const uint64_t *v, size_t n,
+                      unsigned fm) {
     st s;
     stats(v, n, &s);
     branch_classes(&s);
-    int first = 1;
-    job j;
+    step sp[MAX_STEPS];
+    unsigned ns = 0;
     if (!(fm & F_NOAUTO)) {
-        memset(&j, 0, sizeof(j));
-        j.v = v;
-        j.n = n;
-        j.s = &s;
-        j.forced = -1;
-        j.prefix = "auto";
-        job_encode(c, &j);
-        job_verify(c, &j, first);
-        first = 0;
-        vf_desc(c->rep, " auto=%s", j.type <= 6 ? enc_name[j.type] : "?");
+        sp[ns++] = (step){v, n, &s, -1};
     }
     static const struct {
         unsigned bit;
@@ -498,53 +877,213 @@ static void roundtrip(c06 *c, const uint64_t *v, size_t n, unsigned fm) {
                    {F_DICT, VARINT_ADAPTIVE_DICT},
                    {F_TAGGED, VARINT_ADAPTIVE_TAGGED},
                    {F_BITMAP, VARINT_ADAPTIVE_BITMAP}};
-    for (unsigned k = 0; k < 6 && !c->rep->violated; k++) {
+    for (unsigned k = 0; k < 6; k++) {
         if (!(fm & forced[k].bit)) {
             continue;
         }
         if (forced[k].type == VARINT_ADAPTIVE_BITMAP && !s.strict16) {
             continue; /* outside the documented domain of the bitmap */
         }
-        memset(&j, 0, sizeof(j));
-        j.v = v;
-        j.n = n;
-        j.s = &s;
-        j.forced = forced[k].type;
-        j.prefix = "forced";
-        job_encode(c, &j);
-        job_verify(c, &j, first);
-        first = 0;
+        sp[ns++] = (step){v, n, &s, forced[k].type};
+    }
+    vf_class("hist.none");
+    if (m->mode == MM_REUSED && ns > 1) {
+        vf_class("meta.reused.mask");
+    }
+    run_steps(c, m, sp, ns, 0, 0);
+}
+
+/* ----------------------------------------------------------------- history */
+/* request selector -> a request that is legal for the array */
+static int pick_request(unsigned sel, const st *s, int prev) {
+    switch (sel & 7) {
+    case 0:
+        return -1;
+    case 1:
+        return VARINT_ADAPTIVE_DELTA;
+    case 2:
+        return VARINT_ADAPTIVE_FOR;
+    case 3:
+        return VARINT_ADAPTIVE_PFOR;
+    case 4:
+        return VARINT_ADAPTIVE_DICT;
+    case 5:
+        return VARINT_ADAPTIVE_TAGGED;
+    case 6:
+        return s->strict16 ? VARINT_ADAPTIVE_BITMAP : VARINT_ADAPTIVE_FOR;
+    default:
+        if (prev == VARINT_ADAPTIVE_BITMAP && !s->strict16) {
+            return -1;
+        }
+        return prev;
     }
 }
 
-/* two arrays of the same length encoded back to back with the same request,
- * then both decoded: the second result must not depend on the first call */
-static void pair(c06 *c, const uint64_t *a, const uint64_t *b, size_t n,
-                 int type) {
-    st sa, sb;
-    stats(a, n, &sa);
-    stats(b, n, &sb);
-    branch_classes(&sb);
-    job ja, jb;
-    memset(&ja, 0, sizeof(ja));
-    memset(&jb, 0, sizeof(jb));
-    ja.v = a;
-    jb.v = b;
-    ja.n = jb.n = n;
-    ja.s = &sa;
-    jb.s = &sb;
-    ja.forced = jb.forced = type;
-    ja.prefix = type < 0 ? "auto" : "forced";
-    jb.prefix = type < 0 ? "pair.auto" : "pair.forced";
-    job_encode(c, &ja);
-    job_encode(c, &jb);
-    vf_class("pair");
-    job_verify(c, &ja, 1);
-    if (c->rep->violated) {
-        vf_exact_free(jb.buf);
-        return;
+/* the next array of a history, derived from the previous one (p, n, ps).
+ * Returns the new length; *out is a new allocation, or NULL when the step
+ * uses the previous array itself. */
+static size_t derive(vf_rd *r, const uint64_t *p, size_t n, const st *ps,
+                     uint8_t sb, uint64_t **out, vf_report *rep) {
+    unsigned kind = sb & 7;
+    uint64_t *b;
+    *out = NULL;
+    switch (kind) {
+    case 0:
+        vf_desc(rep, "same");
+        return n;
+    case 1:
+    case 2: {
+        uint64_t cst = vf_u64(r);
+        if ((sb & 0x40) && ps->strict16) {
+            /* stay a strictly increasing sequence below 65536 */
+            cst = kind == 1 ? cst % (65536 - ps->max) : cst % (ps->min + 1);
+        }
+        b = xalloc(n);
+        for (size_t i = 0; i < n; i++) {
+            b[i] = kind == 1 ? p[i] + cst : p[i] - cst;
+        }
+        vf_desc(rep, "prev%c%llu", kind == 1 ? '+' : '-',
+                (unsigned long long)cst);
+        *out = b;
+        return n;
     }
-    job_verify(c, &jb, 0);
+    case 3: {
+        static const uint64_t mtab[8] = {2,   3,     7,          255,
+                                         256, 65536, 1ULL << 32, 1000003};
+        uint64_t mul = mtab[(sb >> 6) | ((vf_u8(r) & 1) << 2)];
+        uint64_t cst = vf_u64(r);
+        b = xalloc(n);
+        for (size_t i = 0; i < n; i++) {
+            b[i] = p[i] * mul + cst;
+        }
+        vf_desc(rep, "prev*%llu+%llu", (unsigned long long)mul,
+                (unsigned long long)cst);
+        *out = b;
+        return n;
+    }
+    case 4: {
+        uint64_t cst = vf_u64(r);
+        b = xalloc(n);
+        for (size_t i = 0; i < n; i++) {
+            b[i] = p[n - 1 - i] ^ cst;
+        }
+        vf_desc(rep, "reversed prev^%llu", (unsigned long long)cst);
+        *out = b;
+        return n;
+    }
+    case 5: {
+        /* unrelated values of the same length: base + random of a width */
+        uint64_t base = vf_u64(r);
+        unsigned bits = vf_take_bits(r);
+        uint64_t mask = bits >= 64 ? UINT64_MAX : ((1ULL << bits) - 1);
+        uint64_t seed = ((uint64_t)vf_u16(r) << 1) | 1;
+        b = xalloc(n);
+        for (size_t i = 0; i < n; i++) {
+            b[i] = base + (vf_xs(&seed) & mask);
+        }
+        if ((sb & 0x40) && n > 1) {
+            qsort(b, n, sizeof(uint64_t), cmp_u64);
+        }
+        vf_desc(rep, "fresh base=%llu bits=%u%s", (unsigned long long)base,
+                bits, (sb & 0x40) ? " sorted" : "");
+        *out = b;
+        return n;
+    }
+    case 6: {
+        vf_arr a;
+        vf_take_array(r, &a, (sb & 0x40) ? 300 : 64, 0);
+        vf_desc(rep, "new n=%zu", a.n);
+        *out = a.v;
+        return a.n;
+    }
+    default: {
+        /* a nearby length: drop the tail or continue the pattern */
+        uint8_t d8 = vf_u8(r);
+        size_t d = 1 + (d8 >> 1) % 3;
+        size_t m;
+        if (!(d8 & 1) && n > 1) {
+            m = n > d ? n - d : 1;
+        } else {
+            m = n + d;
+        }
+        uint64_t cst = m > n ? vf_u64(r) : 0;
+        b = xalloc(m);
+        for (size_t i = 0; i < m; i++) {
+            b[i] = p[i % n] + (uint64_t)(i / n) * cst;
+        }
+        vf_desc(rep, "resized %zu->%zu", n, m);
+        *out = b;
+        return m;
+    }
+    }
+}
+
+/* history: step 0 = (v0, req0); when b1 != NULL step 1 = (b1, req0) (the
+ * legacy pair); then `extra` generated steps */
+static void history(c06 *c, mctx *m, vf_rd *r, const uint64_t *v0, size_t n0,
+                    int req0sel, uint64_t *b1, unsigned extra, int defer) {
+    st sts[MAX_STEPS];
+    uint64_t *own[MAX_STEPS];
+    step sp[MAX_STEPS];
+    unsigned ns = 0, nown = 0;
+    size_t biggest = n0;
+
+    stats(v0, n0, &sts[0]);
+    branch_classes(&sts[0]);
+    int req = req0sel;
+    if (req == VARINT_ADAPTIVE_BITMAP && !sts[0].strict16) {
+        req = -1;
+    }
+    sp[ns++] = (step){v0, n0, &sts[0], req};
+    if (b1) {
+        stats(b1, n0, &sts[ns]);
+        branch_classes(&sts[ns]);
+        int rq = req == VARINT_ADAPTIVE_BITMAP && !sts[ns].strict16 ? -1 : req;
+        sp[ns] = (step){b1, n0, &sts[ns], rq};
+        ns++;
+        vf_class("pair");
+    }
+    if (n0 > 4200 && extra > 2) {
+        extra = 2;
+    }
+    for (unsigned k = 0; k < extra && ns < 6; k++) {
+        uint8_t sb = vf_u8(r);
+        const step *pv = &sp[ns - 1];
+        uint64_t *nb = NULL;
+        vf_desc(c->rep, " | step%u: ", ns);
+        size_t nn = derive(r, pv->v, pv->n, pv->s, sb, &nb, c->rep);
+        const uint64_t *arr = nb ? nb : pv->v;
+        if (nb) {
+            own[nown++] = nb;
+            stats(arr, nn, &sts[ns]);
+            branch_classes(&sts[ns]);
+        } else {
+            sts[ns] = *pv->s;
+        }
+        int rq = pick_request((unsigned)sb >> 3, &sts[ns], pv->req);
+        vf_desc(c->rep, " n=%zu req=%s", nn, rq < 0 ? "auto" : enc_name[rq]);
+        sp[ns] = (step){arr, nn, &sts[ns], rq};
+        ns++;
+        if (nn > biggest) {
+            biggest = nn;
+        }
+    }
+    if (biggest > 4200) {
+        defer = 0; /* keep at most one large destination alive */
+    }
+    {
+        char cls[32];
+        snprintf(cls, sizeof(cls), "hist.len%u", ns);
+        vf_class(cls);
+        vf_class(defer ? "hist.deferred" : "hist.immediate");
+        if (m->mode == MM_REUSED && ns > 1) {
+            vf_class("meta.reused.hist");
+        }
+    }
+    run_steps(c, m, sp, ns, defer, 1);
+    for (unsigned i = 0; i < nown; i++) {
+        free(own[i]);
+    }
 }
 
 /* ------------------------------------------------------------- size classes */
@@ -1069,8 +1608,16 @@ static size_t gen_general(vf_rd *r, unsigned sz, unsigned flags, uint64_t **pv,
 }
 
 /* ------------------------------------------------------------------ driver */
+/* number of generated history steps after the first (0 = no history) */
+static unsigned take_extra(uint8_t hb) {
+    static const uint8_t tab[16] = {0, 0, 0, 0, 0, 0, 0, 0,
+                                    1, 1, 2, 2, 3, 4, 5, 1};
+    return tab[hb & 15];
+}
+
 void vf_run(vf_rd *r, vf_report *rep) {
     c06 c;
+    mctx m;
     memset(&c, 0, sizeof(c));
     c.rep = rep;
     uint8_t mode = vf_u8(r);
@@ -1094,14 +1641,18 @@ void vf_run(vf_rd *r, vf_report *rep) {
         if (fl == 0xD1 || (fl & 7) != 0) {
             fm |= F_NOAUTO;
         }
-        roundtrip(&c, v, n, fm);
+        take_meta(r, &m);
+        meta_describe(rep, &m);
+        roundtrip(&c, &m, v, n, fm);
         free(v);
         return;
     }
 
     unsigned sz = take_sizeclass(r);
     unsigned fm = vf_u8(r) & 0x3f;
+    unsigned fm0 = fm;
     unsigned g = mode & 15;
+    uint64_t *b = NULL; /* second array of the legacy pair */
     vf_class(sz == SZ_SMALL    ? "size.small"
              : sz == SZ_MEDIUM ? "size.medium"
                                : "size.large");
@@ -1137,12 +1688,13 @@ void vf_run(vf_rd *r, vf_report *rep) {
         vf_class("gen.steer.sampled");
         break;
     case 11: {
-        /* pair: B derived from A, same length, same request, back to back */
+        /* pair: B derived from A, same length, same request, back to back:
+         * a two-step history whose decodes come after both encodes */
         n = gen_general(r, sz == SZ_LARGE ? SZ_MEDIUM : sz, 0, &v, rep);
         uint8_t op = vf_u8(r);
         uint64_t cst = vf_u64(r);
         uint64_t mul = 1 + (uint64_t)(op >> 2) % 7;
-        uint64_t *b = xalloc(n);
+        b = xalloc(n);
         for (size_t i = 0; i < n; i++) {
             switch (op & 3) {
             case 0:
@@ -1159,30 +1711,50 @@ void vf_run(vf_rd *r, vf_report *rep) {
                 break;
             }
         }
-        int type = (int)(fm % 6) - 1; /* -1 automatic, 0..3, 4 -> TAGGED */
-        if (type == 4) {
-            type = VARINT_ADAPTIVE_TAGGED;
-        }
-        vf_desc(rep, " | pair: second = %s %llu (mul %llu), request=%s",
+        vf_desc(rep, " | pair: second = %s %llu (mul %llu)",
                 (op & 3) == 0   ? "first +"
                 : (op & 3) == 1 ? "first -"
                 : (op & 3) == 2 ? "first * mul +"
                                 : "reversed first ^",
-                (unsigned long long)cst, (unsigned long long)mul,
-                type < 0 ? "auto" : enc_name[type]);
+                (unsigned long long)cst, (unsigned long long)mul);
         vf_class("gen.pair");
-        pair(&c, v, b, n, type);
-        free(b);
-        free(v);
-        return;
+        break;
     }
     default:
         n = gen_general(r, sz, 0, &v, rep);
         vf_class("gen.array");
         break;
     }
+
+    /* the two dimensions every case has: how the caller holds the meta
+     * object, and the history of calls */
+    take_meta(r, &m);
+    meta_describe(rep, &m);
+    uint8_t hb = vf_u8(r);
+    unsigned extra = take_extra(hb);
+    int defer = (hb >> 4) & 1;
+    if (b) {
+        defer = !defer; /* the pair is deferred unless the case says otherwise */
+    }
+    if (b || extra) {
+        /* first request: -1 automatic, 0..3, 4 -> TAGGED; BITMAP when the
+         * case asks for it and the array is in its domain */
+        int type = (int)(fm0 % 6) - 1;
+        if (type == 4) {
+            type = VARINT_ADAPTIVE_TAGGED;
+        }
+        if (!b && (fm0 & 0x10) && (g == 4 || (fm0 & 0x20))) {
+            type = VARINT_ADAPTIVE_BITMAP; /* falls back to auto if illegal */
+        }
+        vf_desc(rep, " history%s: first request=%s", defer ? " (deferred)" : "",
+                type < 0 ? "auto" : enc_name[type]);
+        history(&c, &m, r, v, n, type, b, extra, defer);
+        free(b);
+        free(v);
+        return;
+    }
     vf_desc(rep, " forced=0x%02x", fm);
-    roundtrip(&c, v, n, fm);
+    roundtrip(&c, &m, v, n, fm);
     free(v);
 }
 
@@ -1198,7 +1770,7 @@ static uint64_t sweep_case(vf_report *rep, const uint8_t *bytes, size_t len) {
 
 void vf_sweep(vf_report *rep) {
     uint64_t evals = 0;
-    uint8_t b[24];
+    uint8_t b[40];
     /* uniq steer: n 2..40, every distinct count, 3 orders, steps around the
      * density threshold, small base and a base putting max next to 65536 */
     static const uint8_t steps[] = {0, 17, 18, 19, 20, 21, 22, 39};
@@ -1280,6 +1852,59 @@ void vf_sweep(vf_report *rep) {
                             b[k++] = 0x11; /* seed */
                             b[k++] = 0x22;
                             evals += sweep_case(rep, b, k + 2);
+                        }
+                    }
+                }
+            }
+        }
+    }
+    /* histories through every meta handling: two base arrays, the first
+     * request, a second array of the same length in a different frame (above,
+     * below, wider, unrelated) with every request, a third one below the
+     * second with four requests */
+    for (unsigned ni = 0; ni < 2 && !rep->violated; ni++) {
+        for (unsigned mm = 0; mm < 8; mm++) {
+            for (unsigned r0 = 0; r0 < 6; r0++) {
+                for (unsigned k1 = 0; k1 < 4; k1++) {
+                    for (unsigned r1 = 0; r1 < 8 && !rep->violated; r1++) {
+                        static const uint8_t kinds[4] = {1, 2, 3, 5};
+                        static const uint8_t r2s[4] = {2, 0, 3, 7};
+                        for (unsigned r2 = 0; r2 < 4 && !rep->violated; r2++) {
+                            size_t k = 0;
+                            memset(b, 0, sizeof(b));
+                            b[k++] = 5;          /* gen_uniq */
+                            b[k++] = 0;          /* small */
+                            b[k++] = (uint8_t)r0; /* first request */
+                            b[k++] = ni ? 6 : 1; /* n = 8 / 3 */
+                            b[k++] = 0;
+                            b[k++] = 0;    /* all distinct, ascending */
+                            b[k++] = 16;   /* step 17 */
+                            b[k++] = 1;    /* base = u16 */
+                            b[k++] = 0xe8; /* 1000 */
+                            b[k++] = 0x03;
+                            k += 4; /* shuffle seed (unused) */
+                            b[k++] = (uint8_t)(mm | ((r1 & 1) << 3) |
+                                               ((r2 & 1) << 4));
+                            if (mm == 2 || mm == 6) {
+                                b[k++] = (uint8_t)(r0 & 3); /* poison byte */
+                            }
+                            b[k++] = (uint8_t)(10 | ((k1 & 1) << 4)); /* 2 more */
+                            b[k++] = (uint8_t)(kinds[k1] | (r1 << 3));
+                            if (kinds[k1] == 3) {
+                                b[k++] = 0; /* multiplier 2 */
+                            }
+                            b[k++] = 3; /* constant: u16 */
+                            b[k++] = 0x60;
+                            b[k++] = kinds[k1] == 2 ? 0x03 : 0xea; /* 864/60000 */
+                            if (kinds[k1] == 5) {
+                                b[k++] = 0x11; /* 24 bits */
+                                b[k++] = 0x77; /* seed */
+                                b[k++] = 0x01;
+                            }
+                            b[k++] = (uint8_t)(2 | (r2s[r2] << 3)); /* prev - c */
+                            b[k++] = 2; /* constant: u8 */
+                            b[k++] = 99;
+                            evals += sweep_case(rep, b, k);
                         }
                     }
                 }
